@@ -1,7 +1,8 @@
 (* C10 — A container reads the same however its packs are packaged (lookup part proved; the
    equality of whole logical dumps across packagings is checked on real containers). *)
 From Coq Require Import List NArith.
-From Jbk Require Import Base.Parser Base.Prog Format.Structs Manifest.SetLocation Container.Reader Container.Proofs Container.Embed.
+From Jbk Require Import Base.Parser Base.Prog Format.Structs Manifest.SetLocation Container.Reader Container.Proofs Container.Embed
+  Container.EmbedPacks Content.Pack Dir.Layout.
 Import ListNotations.
 
 (* packs are looked for by identity inside the file at hand first ... *)
@@ -38,9 +39,39 @@ Theorem C10_lookup_commutes_with_embedding :
   forall k u ps, find_uuid u (map (shift_ref k) ps) = option_map (fun r => (k + fst r, snd r)%N) (find_uuid u ps).
 Proof. exact find_uuid_shift. Qed.
 
+(* the packs inside: wherever a content pack, a directory pack or the manifest lies, it decodes to the same
+   structure and the same bytes (positions recorded in the answer move with the pack) *)
+Theorem C10_content_read_is_translation_invariant :
+  forall X f base i,
+    run (X ++ f) (pbind (cp_open_p (lenN X + base)) (fun p => cp_read_p p i)) =
+    res_map (shift_read (lenN X)) (run f (pbind (cp_open_p base) (fun p => cp_read_p p i))).
+Proof. exact content_read_is_translation_invariant. Qed.
+Theorem C10_embedded_content_reads_the_same_bytes :
+  forall X f base i c b off len d,
+    run f (pbind (cp_open_p base) (fun p => cp_read_p p i)) = Ok (Some (c, b, CRaw off len, Some d)) ->
+    run (X ++ f) (pbind (cp_open_p (lenN X + base)) (fun p => cp_read_p p i)) = Ok (Some (c, b, CRaw (lenN X + off) len, Some d)).
+Proof. exact embedded_content_reads_the_same_bytes. Qed.
+Theorem C10_directory_queries_are_translation_invariant :
+  forall X f base,
+  (forall i, run (X ++ f) (pbind (dp_open_p (lenN X + base)) (fun d => dp_index_p d i)) =
+             run f (pbind (dp_open_p base) (fun d => dp_index_p d i))) /\
+  (forall i, run (X ++ f) (pbind (dp_open_p (lenN X + base)) (fun d => dp_entry_store_p d i)) =
+             run f (pbind (dp_open_p base) (fun d => dp_entry_store_p d i))) /\
+  (forall i, run (X ++ f) (pbind (dp_open_p (lenN X + base)) (fun d => dp_value_store_p d i)) =
+             run f (pbind (dp_open_p base) (fun d => dp_value_store_p d i))).
+Proof. exact directory_queries_are_translation_invariant. Qed.
+Theorem C10_manifest_open_is_translation_invariant :
+  forall X f pos,
+    run (X ++ f) (manifest_open_p (lenN X + pos)) = res_map (shift_manifest (lenN X)) (run f (manifest_open_p pos)).
+Proof. exact manifest_open_is_translation_invariant. Qed.
+
 Print Assumptions C10_inside_the_file_first.
 Print Assumptions C10_embedded_at_the_end_of_another_file.
 Print Assumptions C10_reader_programs_are_translation_invariant.
 Print Assumptions C10_container_pack_listing_is_translation_invariant.
 Print Assumptions C10_lookup_commutes_with_embedding.
 Print Assumptions C10_found_pack_has_the_requested_identity.
+Print Assumptions C10_content_read_is_translation_invariant.
+Print Assumptions C10_embedded_content_reads_the_same_bytes.
+Print Assumptions C10_directory_queries_are_translation_invariant.
+Print Assumptions C10_manifest_open_is_translation_invariant.
